@@ -286,6 +286,77 @@ harness! {
     }
 }
 
+// "what the peer's receive for record i returns is the message sent for record i", transport side:
+// the byte stream handed to the receiver (`LogErrors` over the transport's chunk stream) forwards
+// every chunk unchanged and ENDS at the first transport error — it never resumes with later chunks,
+// which would shift every following record.  One adapter step for each kind of next inner item.
+pub(crate) mod log_errors {
+    use super::*;
+    use crate::helpers::transport::LogErrors;
+    use futures::Stream;
+    use std::pin::Pin;
+    use std::task::{Context, Poll, Waker};
+
+    #[derive(Debug)]
+    pub(crate) struct TransportDown;
+    impl std::fmt::Display for TransportDown {
+        fn fmt(&self, _f: &mut std::fmt::Formatter<'_>) -> std::fmt::Result {
+            Ok(())
+        }
+    }
+    impl std::error::Error for TransportDown {}
+
+    /// inner stream: item kinds 0 = Pending, 1 = Ok(2-byte chunk), 2 = Err, 3 = end of stream
+    pub(crate) struct Script {
+        kinds: [u8; 2],
+        data: [[u8; 2]; 2],
+        pos: usize,
+    }
+    impl Stream for Script {
+        type Item = Result<Vec<u8>, TransportDown>;
+        fn poll_next(mut self: Pin<&mut Self>, _cx: &mut Context<'_>) -> Poll<Option<Self::Item>> {
+            let k = if self.pos < 2 { self.kinds[self.pos] } else { 3 };
+            let d = if self.pos < 2 { self.data[self.pos] } else { [0, 0] };
+            self.pos += 1;
+            match k {
+                0 => Poll::Pending,
+                1 => {
+                    let mut v = Vec::with_capacity(2);
+                    v.push(d[0]);
+                    v.push(d[1]);
+                    Poll::Ready(Some(Ok(v)))
+                }
+                2 => Poll::Ready(Some(Err(TransportDown))),
+                _ => Poll::Ready(None),
+            }
+        }
+    }
+
+    harness! {
+        #[kani::unwind(5)]
+        fn q13_log_errors_ends_stream_at_transport_error() {
+            let kinds: [u8; 2] = kani::any();
+            let data: [[u8; 2]; 2] = kani::any();
+            kani::assume(kinds[0] <= 3 && kinds[1] <= 3);
+            let mut s = LogErrors::new(Script { kinds, data, pos: 0 });
+            let waker = Waker::noop();
+            let mut cx = Context::from_waker(&waker);
+            let r = Pin::new(&mut s).poll_next(&mut cx);
+            match (&r, kinds[0]) {
+                (Poll::Pending, 0) => {}
+                (Poll::Ready(Some(v)), 1) => assert!(v.len() == 2 && v[0] == data[0][0] && v[1] == data[0][1], "a chunk is forwarded unchanged"),
+                (Poll::Ready(None), 2) => {} // the error ends the stream
+                (Poll::Ready(None), 3) => {}
+                _ => assert!(false, "one inner item per poll: Pending / chunk / end (also at a transport error)"),
+            }
+            kani::cover!(kinds[0] == 2 && kinds[1] == 1);
+            kani::cover!(kinds[0] == 1);
+            std::mem::forget(r);
+            std::mem::forget(s);
+        }
+    }
+}
+
 // native replay slot (cargo kani playback): the driver points IPA_VERIF_REPLAY_DIR at a directory
 // holding one file per hook; the generated test calls the harness by its path relative to this module.
 #[cfg(test)]
